@@ -1071,6 +1071,10 @@ def gen_cases(ctx):
     fixed(["uni_a"], 4, ["raiser", "raiser", "add1", "watcher"])
     fixed(["uni_a"], 2, ["raiser", "add1", "buy"], windows=True)           # … and through the pooled branch that pickles the data per task
     fixed(["uni_a", "uni_b"], 2, ["add1", "raiser", "add_b", "raiser"], windows=True)
+    # more strategies than 4 x workers (the size from which Pool.map-style submission puts several tasks into one chunk), one of them failing early
+    # in the list: every other strategy still has its solo result, whichever task shared a chunk / a worker with the failing one
+    fixed(["uni_a"], 2, ["add1", "idle", "raiser", "buy", "idle", "sell", "add1", "idle", "buy", "idle"])
+    fixed(["uni_a"], 2, ["idle", "raiser", "add1", "buy", "raiser", "sell", "idle", "add1", "buy", "sell"], windows=True)
     # Squeeth refers to its oSQTH pool market: both are configured markets
     fixed(["uni_sq", "squeeth"], 1, ["sq_buy", "sq_short", "idle", "mut_data"], price_kind="decimal")
     fixed(["uni_sq", "squeeth"], 2, ["sq_short", "sq_buy", "watcher"])
